@@ -25,6 +25,8 @@ def dec(s):
 # ---------------------------------------------------------------------------------------------
 
 class _PG:
+    focus = None     # "opt": menus restricted to the optional-value / optional-attribute features (see pattern_driver)
+
     def __init__(self, ch, max_nodes):
         self.ch = ch
         self.budget = max_nodes
@@ -47,7 +49,12 @@ class _PG:
                 menu.append(f"sh:{i}.{k}")
         if allow_or:
             menu.append("or")
+        if self.focus == "opt":
+            # only the optional-variable features: a fresh optional variable, or an optional variable used AGAIN
+            menu = ["new"] + ["rep:" + v for v in self.vars] + ["opt"] + ["optrep:o%d" % (j + 1) for j in range(self.nopt)]
         l = ch.choose("leaf", menu)
+        if l.startswith("optrep:"):
+            return ["x", l[7:], True]
         if l == "new":
             return self.new_var()
         if l.startswith("rep:"):
@@ -98,17 +105,20 @@ class _PG:
         ins = []
         short = "no"
         if op in ("Add", "Sub"):
-            short = ch.choose("short", ["no", "short+oi", "short"])
+            short = ch.choose("short", ["no"] if self.focus == "opt" else ["no", "short+oi", "short"])
         n_in = 1 if short != "no" else ARITY[op]
         for _ in range(n_in):
             ins.append(self.value(allow_or))
         nd = {"op": op, "ins": ins, "attrs": {}, "oa": None, "oi": None, "outs": [None] * NOUT[op], "dom": None}
-        if ch.choose("dom", [None, DOMAIN]):
+        if ch.choose("dom", [None] if self.focus == "opt" else [None, DOMAIN]):
             nd["dom"] = DOMAIN
         if short == "short+oi":
             nd["oi"] = True
         if op == "Split":
-            in2 = ch.choose("in2", ["omit", "none", "cv", "opt", "var", "any"])
+            in2 = ch.choose("in2", (["omit", "opt"] + ["optrep:o%d" % (j + 1) for j in range(self.nopt)])
+                            if self.focus == "opt" else ["omit", "none", "cv", "opt", "var", "any"])
+            if in2.startswith("optrep:"):
+                ins.append(["x", in2[7:], True])
             if in2 == "none":
                 ins.append(None)
             elif in2 == "cv":
@@ -120,7 +130,7 @@ class _PG:
                 ins.append(self.new_var())
             elif in2 == "any":
                 ins.append(["any"])
-            ax = ch.choose("axis", ["absent", "c1", "var", "var2", "optvar"])
+            ax = ch.choose("axis", ["absent", "optvar"] if self.focus == "opt" else ["absent", "c1", "var", "var2", "optvar"])
             if ax == "c1":
                 nd["attrs"]["axis"] = ["c", 1]
             elif ax == "var":
@@ -145,10 +155,13 @@ class _PG:
         return nid
 
 
-def pattern_driver(max_nodes, exact=False):
-    """Patterns with at most (exact: exactly) ``max_nodes`` skeleton node-patterns."""
+def pattern_driver(max_nodes, exact=False, focus=None):
+    """Patterns with at most (exact: exactly) ``max_nodes`` skeleton node-patterns.
+    focus="opt": the feature menus are restricted to optional value variables (fresh or used again) and the optional
+    attribute variable, so that a higher deviation bound stays small (repeated optional variables need two deviations)."""
     def driver(ch):
         g = _PG(ch, max_nodes - 1)
+        g.focus = focus
         root_op = ch.all("root", OPS)
         rid = g.node(root_op)
         root = g.nodes[rid]
